@@ -598,6 +598,24 @@ func driveRend(args []string) error {
 			// C17: one Renderer (and its rasteriser) used for A then B; B's part of the trace must be what the
 			// specification prescribes for B alone (Reset re-establishes everything a program can observe)
 			rng := newRand(203)
+			// directed (round 9): A stops right after a curve inside a path that is never ended (the data ended there, or an
+			// error ended the decode), B begins with a smooth operation - of the same degree and of the other one
+			{
+				k := 0
+				for _, curve := range []Call{mkCall("AbsQuadTo", 3, -4, 6, 1), mkCall("RelSmoothQuadTo", 3, 1), mkCall("RelCubeTo", 1, -3, 4, -3, 5, 0), mkCall("AbsSmoothCubeTo", 2, 7, 9, 5)} {
+					for _, smooth := range []Call{mkCall("RelSmoothQuadTo", 3, 2), mkCall("AbsSmoothQuadTo", 12, 8), mkCall("RelSmoothCubeTo", 1, 3, 3, 3), mkCall("AbsSmoothCubeTo", 14, 2, 15, 6)} {
+						k++
+						cfg := []rendCfg{cfgs[0], cfgs[7]}[k%2]
+						prog := []Call{resetCall(cfg.vb, defaultPal()), mkCall("StartPath", 1, 2), mkCall("RelLineTo", 2, 1), curve,
+							resetCall(cfg.vb, defaultPal()), mkCall("StartPath", 1, 2), smooth, mkCall("RelLineTo", 1, 1), mkCall("ClosePathEndPath")}
+						t := newTracedRenderer(sh.Next(), fmt.Sprintf("reuse/unended-curve-then-smooth/%d", k), cfg.rect)
+						runProg(t, prog)
+						stats["reuse.programs"]++
+						stats["reuse.unended_curve_then_smooth"]++
+						stats["reuse.calls"] += t.n
+					}
+				}
+			}
 			for i := 0; i < *n; i++ {
 				cfg := cfgs[i%len(cfgs)]
 				t := newTracedRenderer(sh.Next(), fmt.Sprintf("reuse/%d", i), cfg.rect)
@@ -610,6 +628,15 @@ func driveRend(args []string) error {
 					a = a[:2+rng.Intn(len(a)-2)] // truncated: mid-path, dirty smooth state
 				}
 				runProg(t, a)
+				if i%7 == 3 {
+					// third use (round 10): another whole program between A and B
+					mid := genVMProgram(rng, cfg.vb, cfg.rect.Dy())
+					if i%2 == 0 && a[0].Op == "Reset" {
+						mid[0] = a[0]
+					}
+					runProg(t, mid)
+					stats["reuse.third_use"]++
+				}
 				if i%4 >= 2 {
 					// same Renderer, another target: same size at another origin, or another size
 					nr := cfg.rect.Add(image.Pt(3+rng.Intn(9), 1+rng.Intn(5)))
